@@ -167,6 +167,13 @@ def catalogue(thorough: bool) -> t.List[Stream]:
     out.append(Stream("client", ["search"], [huge, _with_id(don[0], 1)], 0, "3-octet-length"))
     hugereq = L.ExtendedRequest(1, [], "1.2", b"v" * 65536)
     out.append(Stream("server", [], [hugereq, _with_id(er[0], 2)], 2, "3-octet-length-off-boundary"))
+    # content that looks like another protocol's framing when a chunk happens to start with it (a TLS record header, an HTTP
+    # verb, a second LDAPMessage), and a version-2 bind followed by non-ASCII text (nothing the first message says may change
+    # how the octets of the next one are read, wherever the cut falls)
+    odd = b"\x16\x03\x01\x02\x00\x01\x00" + b"\x17\x03\x03\x00\x10" + b"GET / HTTP/1.1\r\n" + b"\x30\x0c\x02\x01\x01\x60\x07\x02\x01\x03\x04\x00\x80\x00" + b"\x15\x03\x04"
+    out.append(Stream("server", [], [L.ExtendedRequest(1, [], "1.2", odd), L.ExtendedRequest(2, [], "1.2", odd[7:])], 0, "foreign-framing-in-values"))
+    out.append(Stream("client", ["search"], [L.SearchResultEntry(1, [], "cn=x", [L.PartialAttribute("objectGUID", [odd, odd[7:12], odd[12:]])]), _with_id(don[0], 1)], 0, "foreign-framing-in-values"))
+    out.append(Stream("server", [], [L.BindRequest(1, [], 2, "cn=J\u00fcrgen", L.SimpleCredential("p\u00e4ss")), L.SearchRequest(2, [], "ou=Caf\u00e9,dc=x", L.SearchScope.SUBTREE, L.DereferencingPolicy.NEVER, 0, 0, False, L.FilterEquality("cn", "M\u00fcller".encode()), ["cn"])], 0, "v2-bind-then-non-ascii"))
     # messages above the sizes at which an implementation might start to treat pending data differently (256 KiB, 1 MiB, 16 MiB)
     out.append(Stream("client", ["search"], [L.SearchResultEntry(1, [], "cn=x", [L.PartialAttribute("jpegPhoto", [b"\xfe" * 300_000])]), _with_id(don[0], 1)], 0, "300KB-value"))
     out.append(Stream("server", [], [L.ExtendedRequest(1, [], "1.2", b"w" * 1_200_000), _with_id(er[0], 2)], 1, "1.2MB-value-off-boundary"))
